@@ -420,7 +420,9 @@ func (g *typeGen) variant(name string) string {
 		return string(rs)
 	case 4:
 		i := rapid.IntRange(0, len(rs)).Draw(g.t, "insat")
-		delim := g.pick("delim", []string{"_", "-"})
+		// '_' and '-' are the only characters the folding ignores: other
+		// punctuation (and look-alikes of the hyphen) must keep names apart
+		delim := g.pick("delim", []string{"_", "-", "_", "-", ".", " ", "/", "+", "\u2010", "\uff3f", "~"})
 		return string(rs[:i]) + delim + string(rs[i:])
 	case 5:
 		return stripDelims(name)
